@@ -171,6 +171,8 @@ func main() {
 		cmdAlloc(os.Args[2:])
 	case "codec":
 		cmdCodec(os.Args[2:])
+	case "sched":
+		cmdSched(os.Args[2:])
 	default:
 		fmt.Fprintln(os.Stderr, "unknown engine", os.Args[1])
 		os.Exit(2)
